@@ -828,6 +828,27 @@ def c19_message_events(tier: str, r) -> List[Dict[str, Any]]:
                     return {'out_team': tm, 'out_seat': seatv(pl), 'out_version': vv}
                 R.add('msg.parse_connect', {'base': base, 'team': ns, 'seat': s,
                                             'version': ver, 'variant': vn, 'sent': txt}, pc)
+    # the bundled client's handshake, fed the lines of the protocol for its seat
+    from .framing import ScriptedSocket
+    for k, team in enumerate(names):
+        other = names[(k * 5 + 1) % len(names)]
+        for s in (k % 4, (k + 1) % 4):
+            ns, ew = (team, other) if s % 2 == 0 else (other, team)
+            for style in (0, 1):
+                seated = f'{SEATS[s]} {team} seated' if style == 0 else f'{SEATS[s]} ("{team}") seated'
+
+                def hs():
+                    cl = Client(player=Player(s + 1), team_name=team, bidding_system=None,
+                                playing_system=None, ip_address='127.0.0.1', port=0)
+                    lines = (seated + '\r\n' + f'Teams : N/S : "{ns}" E/W : "{ew}"' + '\r\n').encode('utf-8')
+                    sock = ScriptedSocket([lines], False)
+                    sock.connect = lambda *a: None
+                    cl._socket = sock
+                    MessageInterface.__init__(cl, connection_socket=sock)
+                    cl._connect()
+                    sent = bytes(sock.sent).decode('utf-8').split('\r\n')
+                    return {'sent': sent[:-1], 'opp': cl.opponent_team_name}
+                R.add('msg.handshake', {'team': team, 'other': other, 'seat': s, 'style': style}, hs)
     for s in range(4):
         for dummy in range(4):
             R.add('msg.parse_leader', {'seat': s, 'as_dummy': False, 'base': f'{SEATS[s]} to lead'},
